@@ -130,6 +130,8 @@ func c06Program(f c06Fault, p c06Pos, layout int) (string, bool) {
 		for i := 0; i < 7; i++ {
 			lines = append(lines, Print(fmt.Sprintf(`"lead-%d"`, i)))
 		}
+		// line tracking must survive multi-line strings and comments before the fault
+		lines = append(lines, Print("\"lead-a\nlead-b\nlead-c\""), "/* lead comment\n spanning\n lines */", "// line comment", Print("\"\nlead-d\""))
 	}
 	lines = append(lines, c06Prelude()...)
 	lines = append(lines, Print(`"before-1"`), Print(`"before-2"`))
